@@ -132,6 +132,24 @@ def check(run):
     ins = [c for c in st.calls() if (c.get('callee') or '').endswith('::insert') and q.render(st, c.get('obj')) == 'p.buffer']
     loops = [n for n in st.all_nodes() if n['k'] in ('for', 'rangefor', 'while') and any(x is c for c in ins for x in walk(n['body']))]
     run.check(len(ins) == 1 and len(loops) == 1 and 'p.buffer.end()' in q.render(st, ins[0]['args'][0]), 'R4', 'datagram-whole', st.norm, st.loc(), 'the datagram is not the concatenation of all send buffers appended in order', 'every buffer appended at the end of one packet')
+    run.clause('the MTU the sockets see is the configured one: io_context::get_path_mtu returns configuration::path_mtu(source, dest) itself, unclamped')
+    gp = fx.fn1('sim::asio::io_context::get_path_mtu')
+    run.touch(gp)
+
+    def passes_through(e, depth=0):
+        e = q.strip_casts(e)
+        if not is_node(e) or depth > 4:
+            return False
+        if e['k'] == 'call' and (q.callee_name(e) or '').endswith('configuration::path_mtu'):
+            return [q.render(gp, a) for a in e.get('args', [])] == [gp.params[0]['name'], gp.params[1]['name']]
+        if e['k'] == 'ref' and e.get('dk') == 'local':
+            ds = q.local_defs(gp, e['did'])
+            return len(ds) == 1 and passes_through(ds[0][1], depth + 1)
+        return False
+    rets = [r for r in q.returns(gp) if r.get('e') is not None]
+    run.check(bool(rets) and all(passes_through(r['e']) for r in rets), 'R4', 'mtu-pass-through', gp.norm, gp.loc(),
+              'get_path_mtu does not return configuration::path_mtu(source, dest) unchanged (returns %s): a floor or ceiling on the MTU makes TCP segments and don\'t-fragment datagrams exceed (or undershoot) the configured path MTU for some configurations'
+              % ', '.join(q.render(gp, r['e'])[:60] for r in rets), 'returns the configured value itself')
     run.floor('R4', 5)
 
 
